@@ -127,3 +127,69 @@ func (g *gm) checkCatalogue() {
 		}
 	}
 }
+
+// C19, concurrent part: writers on different datasets whose counter updates all
+// funnel through core.Dataset. After the clients finished (quiescent point)
+// every items counter equals the number of distinct ids in the dataset's feed
+// and there is exactly one live meta-entity per dataset.
+func TestVerif_C19_concurrent(t *testing.T) {
+	defer kit.S().Flush()
+	defer kit.CleanupScratch()
+	rapid.Check(t, func(t *rapid.T) {
+		pool := (&kit.Hub{P: poolPrefixes()}).Pool()
+		plan := genPlan(t, pool)
+		kit.Journal(plan)
+		defer kit.JournalDone()
+		runPlan(t, plan, pool, func(h *WHub, failf func(string, ...any)) {
+			metas, err := h.Latest("core.Dataset", nil)
+			if err != nil {
+				failf("listing core.Dataset: %v", err)
+			}
+			live := map[string]*kit.Ent{}
+			for _, e := range metas {
+				_, name, _ := strings.Cut(e.ID, ":")
+				if !e.Deleted {
+					live[name] = e
+				}
+			}
+			names := h.DatasetNames()
+			for _, name := range names {
+				me := live[name]
+				if me == nil {
+					failf("CATALOGUE-META(concurrent) no live meta-entity for dataset %s", name)
+				}
+				feed, _, err := h.Feed(name, 0, nil, false)
+				if err != nil {
+					failf("feed: %v", err)
+				}
+				ids := map[string]bool{}
+				for _, e := range feed {
+					ids[e.ID] = true
+				}
+				var items any
+				for k, v := range me.Props {
+					if strings.HasSuffix(k, ":items") {
+						items = v
+					}
+				}
+				if f, ok := items.(float64); !ok || int(f) != len(ids) {
+					failf("CATALOGUE-ITEMS(concurrent) dataset %s: items counter=%v, distinct ids stored=%d", name, items, len(ids))
+				}
+			}
+			for name := range live {
+				if name == "core.Dataset" {
+					continue
+				}
+				found := false
+				for _, n := range names {
+					if n == name {
+						found = true
+					}
+				}
+				if !found {
+					failf("CATALOGUE-META(concurrent) live meta-entity for %s which is not a dataset", name)
+				}
+			}
+		})
+	})
+}
